@@ -95,6 +95,7 @@ enum
     CL_TWO_DEVICES_RUNNING,
     CL_CROSS,
     CL_URI_OVERSIZED_BUFFER,
+    CL_LONG_PATH,
 };
 
 const VhSpec kSpec = {
@@ -108,7 +109,7 @@ const VhSpec kSpec = {
       "fault_fired", "fault_open", "fault_flock", "fault_pwrite", "fault_persistent", "device_used_after_fault", "failed_append_reported",
       "close_while_running", "close_without_start", "start_stop_without_frames", "f32_frames", "odd_image_size", "raw_file_compared",
       "tiff_file_read_back", "restart_without_set", "file_offsets_beyond_4GiB", "second_device_on_running_file_refused",
-      "second_device_on_running_file_admitted", "two_devices_open", "two_devices_running", "cross_device_descriptor_reuse_scenario", "uri_in_oversized_buffer", nullptr },
+      "second_device_on_running_file_admitted", "two_devices_open", "two_devices_running", "cross_device_descriptor_reuse_scenario", "uri_in_oversized_buffer", "path_longer_than_1KiB", nullptr },
     { "C14 non-trivial: a raw file was compared byte for byte AND (>=2 acquisitions on that device, or a short write inside a multi-frame packet)",
       "C15 non-trivial: a TIFF file was read back AND (N>=2 frames in >=2 packets, or >=2 start/stop cycles on one device, or tiff-json)",
       "C16 non-trivial: an injected fault fired and the device was used again afterwards, or close while running / without start with the "
@@ -382,8 +383,22 @@ do_set(Ctx& x, unsigned spelling, uint16_t meta_sel, uint16_t scale_sel)
     unsigned pad = ((scale_sel >> 12) & 1) ? 1 + (scale_sel >> 13) * 5 : 0;
     bool junk = pad && ((meta_sel >> 9) & 1);
     bool absolute = spelling & 1, file_uri = spelling & 2;
-    a.path = x.dir + "/" + name;
-    std::string uri = absolute ? a.path : std::string(name);
+    // sometimes far down a directory tree, so that the path (and every log message that names it) is
+    // longer than 1 KiB -- legal (PATH_MAX is 4096) and never done by the tests
+    std::string sub;
+    if ((meta_sel >> 3) % 11 == 0) {
+        std::string walk = x.dir;
+        for (int lvl = 0; lvl < 6; ++lvl) {
+            std::string comp(180 + lvl, (char)('a' + lvl));
+            walk += "/" + comp;
+            mkdir(walk.c_str(), 0755);
+            sub += comp + "/";
+        }
+        x.c.cls(CL_LONG_PATH);
+    }
+    std::string rel = sub + name;
+    a.path = x.dir + "/" + rel;
+    std::string uri = absolute ? a.path : rel;
     if (file_uri) {
         uri = "file://" + uri;
         x.c.cls(CL_FILE_URI);
@@ -444,7 +459,7 @@ do_set(Ctx& x, unsigned spelling, uint16_t meta_sel, uint16_t scale_sel)
         memset(&got, 0, sizeof got);
         if (storage_get(x.dev, &got) == Device_Ok) {
             auto cs = [](const String& st) { return std::string(st.str && st.nbytes ? st.str : ""); };
-            std::string want_uri = x.kind == 3 ? uri : absolute ? a.path : std::string(name); // (trash keeps the uri as given)
+            std::string want_uri = x.kind == 3 ? uri : absolute ? a.path : rel; // (trash keeps the uri as given)
             struct
             {
                 const char* field;
